@@ -17,7 +17,7 @@ From MQ Require Import Base Calls Calls_proofs.
 Theorem C11_returns : forall c p z, In (c, p, z) matrix -> cell_ok (c, p, z) = true.
 Proof. exact matrix_returns. Qed.
 
-(* (the matrix now also has the point "parked inside Transport.Write" x {Close, peer close}: 143 cells) *)
+(* (the matrix now also has the point "parked inside Transport.Write" x {Close, peer close} and the ten retry-handle calls — Retry(ctx2, cli2) of an interrupted QoS1 publish, QoS2 publish before / after PUBREC, Subscribe, Unsubscribe, each with the first attempt's context alive or already cancelled) *)
 
 (* the bound is the whole space: every cell that exists and is not an F14 cell is in [matrix] *)
 Theorem C11_matrix_is_all : forall c p z, valid c p z = true -> is_f14 p z = false -> In (c, p, z) matrix.
@@ -42,6 +42,14 @@ Theorem C11_ctx_error : forall tcl ccl wl rl c c' e,
   cx c <> CtxLive /\
   exists err, res c' = RetErr err /\ chain_contains unwraps_fixed (ctx_sentinel (cx c)) err = true.
 Proof. exact ctx_arm_reports_ctx_error. Qed.
+
+(* retry handles (ErrorWithRetry.Retry(ctx2, cli2)): every wait of the handle selects on the context passed to
+   Retry — the state of the context of the first, interrupted attempt (field [ocx]) never influences whether a
+   step is possible nor what it returns; with C11_ctx_error: the error is ctx2's, never the old context's *)
+Theorem C11_retry_ignores_original_context : forall tcl ccl wl rl a c x,
+  cstep tcl ccl wl rl a (set_ocx c x) =
+  match cstep tcl ccl wl rl a c with Some (c', e) => Some (set_ocx c' x, e) | None => None end.
+Proof. exact cstep_ignores_original_context. Qed.
 
 (* ... and further wrapping by callers (any number of *Error / errorWithRetry / RequestTimeoutError layers)
    keeps it inspectable *)
@@ -164,6 +172,7 @@ Print Assumptions C11_matrix_is_all.
 Print Assumptions C11_returns_all_schedules.
 Print Assumptions C11_bounded.
 Print Assumptions C11_ctx_error.
+Print Assumptions C11_retry_ignores_original_context.
 Print Assumptions C11_ctx_error_through_wrappers.
 Print Assumptions C11_all_wake.
 Print Assumptions C11_all_wake_error.
